@@ -203,7 +203,9 @@ def expand_units(groups, probes, prop, tier, unit_pat):
             if prop != "all" and prop not in props:
                 continue
             utier = u.get("tier", "quick")
-            if tier == "quick" and utier != "quick":
+            if utier == "disabled" and not unit_pat:
+                continue
+            if tier == "quick" and utier not in ("quick", "disabled"):
                 continue
             if g.engine == "S":
                 for cfg in u.get("cfgs", "nr").split():
@@ -275,6 +277,7 @@ def splice_unit(u, scratch, probes, wdir):
     harness_name = u.get("harness")
     harness_text = None
     nloops = 0
+    ntargets = 0
     applied = set()
     for b in g.blocks:
         if not vcfile.when_ok(b.opts.get("when"), tags):
@@ -294,6 +297,7 @@ def splice_unit(u, scratch, probes, wdir):
             if k == "contract":
                 c.add_contract(fn, b.text)
                 applied.add(fn)
+                ntargets = max(ntargets, count_targets(b.text))
             elif k == "loop":
                 if fn in u.get("replace", "").split():
                     continue
@@ -325,6 +329,7 @@ def splice_unit(u, scratch, probes, wdir):
     info["inserted"] = c.log
     info["identity_ok"] = True
     info["nloops"] = nloops
+    info["ntargets"] = ntargets
     info["tags"] = sorted(tags)
     path = os.path.join(wdir, "unit.c")
     with open(path, "w") as f:
@@ -336,6 +341,28 @@ def splice_unit(u, scratch, probes, wdir):
             etags[b.args[0]] = vcfile.ensures_tags(b.text)
     info["etags"] = etags
     return path, info
+
+
+def count_targets(text):
+    """Number of assigns/frees targets of a contract block (top-level commas)."""
+    n = 0
+    for m in re.finditer(r"__CPROVER_(?:assigns|frees)\s*\(", text):
+        i = m.end()
+        depth, cnt, seen = 1, 0, False
+        while i < len(text) and depth > 0:
+            ch = text[i]
+            if ch == "(":
+                depth += 1
+            elif ch == ")":
+                depth -= 1
+            elif ch == "," and depth == 1:
+                cnt += 1
+            elif not ch.isspace() and depth >= 1:
+                seen = True
+            i += 1
+        if seen:
+            n += cnt + 1
+    return n
 
 
 def parse_cbmc_json(txt):
@@ -448,35 +475,27 @@ def run_unit(u, scratch, probes, tier):
     tmo = int(u.get("timeout", "900"))
     if tier == "thorough":
         tmo *= 2
-    # The DFCC library's own loops (write-set bookkeeping) need a bound that
-    # depends on the number of assigns/frees targets.  Start small (a large global
-    # --unwind multiplies every instrumented assignment) and raise the bound only
-    # for the library loops whose unwinding assertion fails.
-    libsets = {}
+    # The DFCC library's own loops iterate over the assigns/frees targets of the
+    # contract (max_elems); the bound needed is (number of targets + 1).  It is
+    # computed from the contract text; one retry with a doubled bound if only a
+    # library unwinding assertion fails.
     total_t = 0.0
-    for attempt, K in enumerate([0, 10, 24, 64]):
-        uw = ["--unwind", unwind, "--unwinding-assertions"]
-        if libsets:
-            uw += ["--unwindset", ",".join("%s:%d" % (k, K) for k in sorted(libsets))]
+    base = int(unwind)
+    if "unwind" not in u:
+        base = max(4, info.get("ntargets", 0) + 3)
+    for attempt, K in enumerate([base, base * 2 + 8]):
+        uw = ["--unwind", str(K), "--unwinding-assertions"]
         cmd = ["cbmc"] + flags + uw + ["--json-ui", cur]
         rc, o, t = run(cmd, timeout=tmo)
         total_t += t
         if rc == "timeout" or rc not in (0, 10):
             break
-        more = set(re.findall(r'"property": "(__CPROVER_contracts_\w+)\.unwind\.(\d+)",\s*"sourceLocation": \{[^}]*?\},\s*"status": "FAILURE"', o, re.S))
-        if not more:
-            # pattern may not match the layout; fall back to a structural scan
-            pj = parse_cbmc_json(o)
-            if pj[0]:
-                more = set()
-                for pp in pj[0]:
-                    m = re.match(r"^(__CPROVER_contracts_\w+)\.unwind\.(\d+)$", pp.get("property", ""))
-                    if m and pp.get("status") == "FAILURE":
-                        more.add((m.group(1), m.group(2)))
-        if not more:
-            break
-        for fn, n in more:
-            libsets["%s.%s" % (fn, n)] = True
+        pj = parse_cbmc_json(o)
+        fails = [pp.get("property", "") for pp in (pj[0] or []) if pp.get("status") == "FAILURE"
+                 and "vp_canary" not in pp.get("description", "")]
+        if fails and all(re.match(r"^__CPROVER_contracts_\w+\.unwind\.\d+$", f) for f in fails):
+            continue
+        break
     res["cmds"].append(" ".join(cmd))
     res["unwind_flags"] = uw
     t = total_t
